@@ -7,7 +7,7 @@ use bemodel::*;
 use serde_json::{json, Value};
 use std::collections::HashSet;
 
-const TILTS: [f32; 9] = [0.0, 45.0, 60.0, 60.01, 90.0, 119.99, 120.0, 180.0, 270.0];
+const TILTS: [f32; 11] = [0.0, 45.0, 60.0, 60.01, 90.0, 119.99, 120.0, 180.0, 270.0, 200.0, 330.0];
 const KINDS: [SpaceType; 3] = [SpaceType::CONDITIONED, SpaceType::UNCONDITIONED, SpaceType::UNINHABITED];
 
 /// stacks: returns the construction id to use for the subject; pushes what is needed
@@ -300,7 +300,7 @@ pub fn run(ctx: &Ctx) -> i32 {
     let mut accs: Vec<Acc> = vec![];
     // EXTERIOR / ADIABATIC
     for (bi, b) in [BoundaryType::EXTERIOR, BoundaryType::ADIABATIC].iter().enumerate() {
-        let g = Grid::new(&[("tilt", 9), ("stack", nst), ("kind", 3)]);
+        let g = Grid::new(&[("tilt", TILTS.len()), ("stack", nst), ("kind", 3)]);
         accs.extend(par_fold(g.size(), |i, acc: &mut Acc| {
             let t = g.unrank(i);
             let m = model_ext(&t, *b);
@@ -314,7 +314,7 @@ pub fn run(ctx: &Ctx) -> i32 {
     }
     // INTERIOR
     let zs_int: Vec<f32> = vec![0.0, -0.005, -1.2, -3.5];
-    let g = Grid::new(&[("tilt", 9), ("stack", nst), ("this_kind", 3), ("next{C,U,N,None,dangling}", 5), ("n_v{Some,None}", 2), ("global_vent{Some,None}", 2), ("slab_ins", 2), ("z_next", zs_int.len()), ("owner{A,B}", 2)]);
+    let g = Grid::new(&[("tilt", TILTS.len()), ("stack", nst), ("this_kind", 3), ("next{C,U,N,None,dangling}", 5), ("n_v{Some,None}", 2), ("global_vent{Some,None}", 2), ("slab_ins", 2), ("z_next", zs_int.len()), ("owner{A,B}", 2)]);
     accs.extend(par_fold(g.size(), |i, acc: &mut Acc| {
         let t = g.unrank(i);
         let m = model_int(&t, &zs_int);
@@ -339,7 +339,7 @@ pub fn run(ctx: &Ctx) -> i32 {
     let perims: Vec<(f32, f32)> = vec![(0.0, 0.0), (1.0, 1.5), (0.5, 0.5), (2.0, 3.0), (1.0, 0.0), (0.0, 1.5)];
     let slabs: Vec<(f32, f32)> = ctx.tier.pick(vec![(4.0, 4.0), (20.0, 5.0), (10.0, 10.0), (2.0, 30.0)], vec![(4.0, 4.0), (20.0, 5.0), (10.0, 10.0), (2.0, 30.0), (1.0, 1.0), (50.0, 40.0)]);
     let shares: Vec<f32> = vec![1.0, 0.5, 0.25, 0.0];
-    let g = Grid::new(&[("tilt", 9), ("stack", nst), ("kind", 3), ("z", zs.len()), ("perim_ins(D,Rn)", perims.len()), ("slab", slabs.len()), ("ext_share", shares.len()), ("slab_ins", 2)]);
+    let g = Grid::new(&[("tilt", TILTS.len()), ("stack", nst), ("kind", 3), ("z", zs.len()), ("perim_ins(D,Rn)", perims.len()), ("slab", slabs.len()), ("ext_share", shares.len()), ("slab_ins", 2)]);
     accs.extend(par_fold(g.size(), |i, acc: &mut Acc| {
         let t = g.unrank(i);
         let is_bottom = crate::ind::tilt_class(TILTS[t[0]] as f64) == crate::ind::TiltC::Bottom;
@@ -372,7 +372,7 @@ pub fn run(ctx: &Ctx) -> i32 {
     ctx.note("branches_reached", json!(b));
     ctx.finish(
         "model_checking",
-        "dependent full products per boundary kind: EXTERIOR/ADIABATIC: tilt{0,45,60,60.01,90,119.99,120,180,270} x layer stack{[], [ins], [R-only], [ins,R-only], [massive], missing material, lambda=0, missing construction (+2 in thorough)} x space kind(3); INTERIOR: x neighbour{conditioned, unconditioned, uninhabited, none, dangling} x n_v{given, not} x building ventilation{given, not} x slab insulation x neighbour depth x owner side (the height of the conditioned space alternates 3.0 / 4.5 m, the partition's own size 4x3 / 2.5x2 m and a window in it, with the configuration index; every fifth neighbour is sealed: no element towards outside or ground and n_v = 0); GROUND: x burial depth z x perimeter insulation (D,Rn) x slab size x exposed-perimeter share x slab insulation (the subject is the slab itself for floor tilts; every other configuration lays the ground floor as three slabs, two sharing a construction); + monotonicity variants (extra layer, extra R-only layer, first layer doubled) for air-contact elements and partitions; + every wall of the 7 shipped models; for every 4th model (all in thorough) also the U-value reported in EnergyIndicators.props.walls for every wall of the model, and the subject's U-value with walls, spaces and windows stored in another order (constructions shared between boundary kinds and tilts); oracle: f64 formulas of EN ISO 6946/13370/13789 with the rounding-interval rule; non-trivial = a U-value is defined",
+        "dependent full products per boundary kind: EXTERIOR/ADIABATIC: tilt{0,45,60,60.01,90,119.99,120,180,270,200,330} x layer stack{[], [ins], [R-only], [ins,R-only], [massive], missing material, lambda=0, missing construction (+2 in thorough)} x space kind(3); INTERIOR: x neighbour{conditioned, unconditioned, uninhabited, none, dangling} x n_v{given, not} x building ventilation{given, not} x slab insulation x neighbour depth x owner side (the height of the conditioned space alternates 3.0 / 4.5 m, the partition's own size 4x3 / 2.5x2 m and a window in it, with the configuration index; every fifth neighbour is sealed: no element towards outside or ground and n_v = 0); GROUND: x burial depth z x perimeter insulation (D,Rn) x slab size x exposed-perimeter share x slab insulation (the subject is the slab itself for floor tilts; every other configuration lays the ground floor as three slabs, two sharing a construction); + monotonicity variants (extra layer, extra R-only layer, first layer doubled) for air-contact elements and partitions; + every wall of the 7 shipped models; for every 4th model (all in thorough) also the U-value reported in EnergyIndicators.props.walls for every wall of the model, and the subject's U-value with walls, spaces and windows stored in another order (constructions shared between boundary kinds and tilts); oracle: f64 formulas of EN ISO 6946/13370/13789 with the rounding-interval rule; non-trivial = a U-value is defined",
         true,
         json!({}),
     )
